@@ -138,6 +138,24 @@ func c13RunChild(t *testing.T, runRe string, env []string, logf string, timeout 
 	return rc, tail
 }
 
+// c13LogErrors returns the last n ERROR lines of a daemon log that mention the dkg (context for inconclusive cases).
+func c13LogErrors(p string, n int) string {
+	b, err := os.ReadFile(p)
+	if err != nil {
+		return ""
+	}
+	var keep []string
+	for _, l := range strings.Split(string(b), "\n") {
+		if strings.Contains(l, `"level":"ERROR"`) && strings.Contains(strings.ToLower(l), "dkg") {
+			keep = append(keep, c13Short(l, 400))
+		}
+	}
+	if len(keep) > n {
+		keep = keep[len(keep)-n:]
+	}
+	return strings.Join(keep, "\n")
+}
+
 func c13Tail(p string, n int) string {
 	b, err := os.ReadFile(p)
 	if err != nil {
@@ -271,7 +289,7 @@ func (sc *c13Scenario) main() {
 	}()
 
 	fail := func(stage string, err error) {
-		run.Inconclusive(fmt.Sprintf("case %d: %s: %v", p.CaseIndex, stage, err))
+		run.Inconclusive(fmt.Sprintf("case %d: %s: %v\n%s", p.CaseIndex, stage, err, c13LogErrors(filepath.Join(sc.dir, "daemons.log"), 6)))
 	}
 	// ---- epoch 1
 	g1, err := nt.runInitialDKG(ns, p.Thr, 6*time.Second)
